@@ -464,6 +464,14 @@ func (r *klRun) sign(h int) error {
 	return nil
 }
 
+// signClass: parameter class of a failed signing, for the finding key
+func (r *klRun) signClass(h int) string {
+	if r.hs[h-1].k.pub.KeyTag() == 0 {
+		return "keytag0"
+	}
+	return "other"
+}
+
 // verify under the DNSKEY of identity id; the key tag of the signature is set to that key's, so that the key
 // material decides, not the tag comparison
 func (r *klRun) verify(id, s int) bool {
@@ -506,6 +514,9 @@ func (kl *keyLife) behaviour(v *vec, c combo, fresh bool, sum *hx.Summary) {
 				k := "keylife/sign-fails:" + alg
 				if r.hs[o.H-1].imp {
 					k = "keylife/sign-fails-imported:" + alg
+				}
+				if r.hs[o.H-1].k.pub.KeyTag() == 0 { // one key in 65536: its own class
+					k = "keylife/sign-refuses-keytag-0"
 				}
 				sum.Mis(k, fmt.Sprintf("RRSIG.Sign: %v", err), v)
 				return
@@ -588,6 +599,10 @@ func (kl *keyLife) stress(sum *hx.Summary) {
 			if d > 4 {
 				short++
 			}
+			if short == 3 && n == 32 { // and the P-256 key of the scalar 44542, whose key tag is 0
+				D = big.NewInt(44542)
+				x, y = curve.ScalarBaseMult(D.Bytes())
+			}
 			ck := fmt.Sprintf("%v#%d#%s", c, 1, "ext")
 			kl.cache[ck] = provided(c, &ecdsa.PrivateKey{PublicKey: ecdsa.PublicKey{Curve: curve, X: x, Y: y}, D: D})
 			kl.fresh++
@@ -612,7 +627,7 @@ type evKL struct {
 	// export / import / sign: the real call returned an error (the specification has no such outcome)
 	Failed   bool   `json:"failed"`
 	Err      string `json:"err"`
-	ErrClass string `json:"errclass"` // kl.gen: "fails" | "panics"
+	ErrClass string `json:"errclass"` // kl.gen: "fails" | "panics"; kl.sign: "keytag0" | "other"
 }
 
 // a signature made during a key life, with everything the specification needs to rebuild the signed octets
@@ -716,7 +731,7 @@ func (kl *keyLife) recordRun(rnd *mrand.Rand, w *hx.Writer, seen map[string]bool
 		case x <= 4 && len(r.hs) > 0:
 			i := 1 + rnd.Intn(len(r.hs))
 			if err := r.sign(i); err != nil {
-				w.Emit(evKL{Ev: "kl.sign", H: i, Alg: alg, Failed: true, Err: err.Error()})
+				w.Emit(evKL{Ev: "kl.sign", H: i, Alg: alg, Failed: true, Err: err.Error(), ErrClass: r.signClass(i)})
 				seen["kl"+alg+trace+"S"] = true
 				return
 			}
@@ -766,7 +781,7 @@ func (kl *keyLife) rerunStep(r *klRun, e *anyEv, w *hx.Writer) *klRun {
 		w.Emit(o)
 	case "kl.sign":
 		if err := r.sign(num(e.H)); err != nil {
-			w.Emit(evKL{Ev: e.Ev, H: num(e.H), Alg: alg, Failed: true, Err: err.Error()})
+			w.Emit(evKL{Ev: e.Ev, H: num(e.H), Alg: alg, Failed: true, Err: err.Error(), ErrClass: r.signClass(num(e.H))})
 			return r
 		}
 		w.Emit(evKL{Ev: e.Ev, H: num(e.H), Alg: alg})
